@@ -1,6 +1,6 @@
 (* Statements.v — the property theorems as closed propositions (so that Props/*.v can only be closed by
    `exact <lemma>` against exactly these statements).  No proofs here. *)
-Require Export Strum.Spec.FromStrSpec Strum.Model.Display Strum.Model.Iter Strum.Model.Table Strum.Model.Misc
+Require Export Strum.Spec.FromStrSpec Strum.Model.Display Strum.Model.Iter Strum.Model.IterProg Strum.Model.Table Strum.Model.Misc
                Strum.Model.Reject Strum.Model.Paths.
 Local Open Scope char_scope.
 Local Open Scope list_scope.
@@ -355,6 +355,14 @@ Definition stmt_C05_fused : Prop :=
 Definition stmt_C05_len_exact : Prop :=
   forall W cnt o s a, 0 <= cnt -> 2 * cnt + 1 < W -> Rit cnt s a ->
   snd (it_step W o cnt s OpLen) = ObsLen (hi a - lo a) /\ snd (it_step W o cnt s OpSizeHint) = ObsHint (hi a - lo a) (hi a - lo a).
+(* the method bodies the real generator emits, read token by token into the deep-embedded language of Model/IterProg.v
+   (harness/genprobe `struct EnumIter`, compared with prog_nth / prog_next_back / prog_size_hint on every run), compute
+   exactly the functions the theorems above are about — for every width, overflow mode, count, state and argument *)
+Definition stmt_C05_programs : Prop :=
+  forall W o cnt s n,
+  exec W o cnt s [("n"%string, n)] prog_nth = mbind (it_nth W o cnt s n) (fun p => Ret (fst p, RItem (snd p))) /\
+  exec W o cnt s [] prog_next_back = mbind (it_next_back W o cnt s) (fun p => Ret (fst p, RItem (snd p))) /\
+  exec W o cnt s [] prog_size_hint = mbind (it_len W o cnt s) (fun m => Ret (s, RHint m)).
 (* the hypothesis 2 * cnt + 1 < W (fewer than 2^63 variants on a 64-bit target) cannot be weakened to cnt + 1 < W: in the
    exhausted state idx = back = cnt the sums idx + (back + 1) of next_back and idx + back of size_hint exceed W.
    Witness with W = 10, cnt = 8: nth(8); next_back; next_back *)
